@@ -289,12 +289,24 @@ def assemble(ub):
         emit_type(n)
     for inc in us.includes:
         L.append('#include "%s"' % inc)
-    if em.ec_consts:
-        L.append('enum { EC_OK = 0, %s };' % ', '.join('%s = %d' % (n, i + 1) for i, n in enumerate(em.ec_consts)))
+    # symbolic constants named by the sidecar but no longer (or not) referenced by the emitted code still
+    # get a distinct value: a change that drops the last use of an error code must fail an obligation,
+    # not break the binding
+    spec_text = open(us.path).read()
+    ecs = list(em.ec_consts)
+    for tok in re.findall(r'\bEC_[A-Za-z0-9_]+\b', spec_text):
+        if tok != 'EC_OK' and tok not in ecs:
+            ecs.append(tok)
+    if ecs:
+        L.append('enum { EC_OK = 0, %s };' % ', '.join('%s = %d' % (n, i + 1) for i, n in enumerate(ecs)))
     else:
         L.append('enum { EC_OK = 0 };')
-    if em.lib_enums:
-        L.append('enum { %s };' % ', '.join('%s = %d' % (n, 1000 + i) for i, n in enumerate(em.lib_enums)))
+    libs = list(em.lib_enums)
+    for tok in re.findall(r'(?<![A-Za-z0-9_])(?:LIBENUM|FNID)_[A-Za-z0-9_]+\b', spec_text):
+        if tok not in libs:
+            libs.append(tok)
+    if libs:
+        L.append('enum { %s };' % ', '.join('%s = %d' % (n, 1000 + i) for i, n in enumerate(libs)))
     L.append('char *g_buf; unsigned long g_n; long g_lo, g_hi; const char *svlit_tab[32]; long g_ffo_j;')
     L.append('#ifndef VERIF_CBMC')
     L.append('unsigned long model_pre_failures;')
